@@ -8,7 +8,8 @@ Specification (all verdict-relevant knowledge is TLA+):
                       (NOT from /repo/code*.c): [mnemonic, argument templates, operand fields (width, signedness,
                       scaling, PC-relative base / in-page rule), opcode pattern with bit pieces, length]
   spec/IsaGen.tla     case generator: Init picks a form (and the statement address for PC-dependent operands), each
-                      step fixes the next operand to one member of its class set; a leaf = one assembler statement
+                      step fixes the next operand to one member of its class set; a leaf = one assembler statement;
+                      second state space SInit: one state per ordered pair of mnemonics (adjacency dimension)
   spec/Isa_Trace.tla  (V) explains recorded statements of golden programs with the tables
 
 (M) per CPU variant TLC explores the complete case graph and checks at every leaf UnitsTyped, DecodeInverts (the
@@ -24,30 +25,74 @@ Specification (all verdict-relevant knowledge is TLA+):
     assembled alone and judged there: an error must be reported and NOTHING may be emitted for the statement;
     convention-zone operands (negative spelling of an unsigned field, address beyond the device) may be rejected, but if
     accepted the two's complement must be emitted.
+(A) ADJACENCY dimension (inter-instruction state; IsaGen.tla SInit / SeqOut): per CPU variant TLC enumerates every
+    ORDERED PAIR of mnemonics of the table (6502: 56 x 56, W65C02S: 98 x 98, ATMEGA128: 111 x 111 ...), picks a
+    representative form and legal operands for both and prints the two statements with their units; the harness puts
+    the two statements of a pair on CONSECUTIVE source lines (an `org` before the pair, nothing between them), 400 pairs
+    per source.  Each statement is compared, in that context, with the context-free units of the table - except where
+    the ISA module's operator `After(cpu, previous form, form, units)` names assembler behaviour (only MELPS740, below).
+    A deviating pair is re-run as a two-statement source and judged there (never statement by statement: the context
+    is the point).  Quick tier included.
+    CPU MELPS740 (Mitsubishi 740, not in the property's CPU list) is covered by this dimension only, with its
+    6502-compatible base set: there asl inserts a NOP behind PLP and in front of SEC / CLC / CLD that directly follow
+    ADC / SBC (usage cautions of the 740 family); Isa6502.tla `After` states exactly that, every other 65xx CPU is
+    context free.
 (V) machine statements of 15 golden programs (stmt + emit events, CPU tracked through the CPU statements) are validated
     by TLC against the tables (a mnemonic of the table must be explained by one of its forms).  A rejection is
-    reported as SPEC-DRIFT (table gap or defect), the verdict stays with (G).
+    reported as SPEC-DRIFT (table gap or defect), the verdict stays with (G).  Runs in the background of the TLC pool.
 
-ISAs covered: see ISAS.  quick: K = 3, one seed-derived salt, 6502 + W65C02S, ATMEGA128, MSP430 sample subset
-(MOV / ADD.B / CMP[.B] + format II + jumps + emulated); thorough: K = 8, 4 salts, all CPU variants, all 12 MSP430
-format-I operations.  The evidence names the ISAs of the run; nothing outside the list is "passed".
+Out-of-range operand classes (IsaGen.tla NumClasses) contain, next to limits +-1, MASK PROBES: values congruent to small
+legal ones modulo 2^j, j = w..w+5 (2^j, 2^j + 5, and 2^w + 2^j + 5 = the same behind a rebase by the field's own range):
+an encoder that masks the operand before its range check lets them through (AVR `sbi 0x205,1`, below).
+
+6502 forced addressing (`<addr`): code65.c accepts `<` (force zero page) / `>` (force absolute) in front of an address.
+    The manual (/repo/doc) says NOTHING about these prefixes for the 65xx family of code65.c; only the MELPS-7700/65816
+    section (another code generator) documents them ("an address length that is not allowed for the current
+    instruction ... an error message is the result").  Decision: `<` on an instruction that has NO zero-page form of the
+    mode (JMP / JSR abs, ORA AND EOR ADC STA LDA CMP SBC abs,Y: forms "abso<" / "absyo<" of Isa6502.tla) is generated
+    but its ACCEPTANCE IS NOT JUDGED (Isa6502.tla `Unjudged`, verdict "either"): an error message and the promotion
+    to the three-byte absolute encoding are both admitted.  If the statement is accepted, the emitted units must be
+    an encoding the instruction set has for it, and that is only the absolute one (opcode, low byte, 00) - a two-byte
+    JMP is no 6502 instruction under either reading.  `<` where a zero-page form exists and `>` are not generated.
+
+ISAs covered: see ISAS.  quick: K = 3, one seed-derived salt, 6502 + W65C02S (+ MELPS740 adjacency), ATMEGA128, MSP430
+sample subset (MOV / ADD.B / CMP[.B] + format II + jumps + emulated); thorough: K = 8, 4 salts, all CPU variants, all
+12 MSP430 format-I operations.  The evidence names the ISAs of the run; nothing outside the list is "passed".
+Measured (VERIF_JOBS=6, machine shared): quick 62 s (23 single-worker TLC runs in a pool of 6: 48 s; replay of
+~259,000 statements: 12 s).
 
 NOT covered / not judged: number spellings other than decimal; register aliases beyond the tables; undocumented
 opcodes and assembler conveniences (NMOS 6502 JMP ($xxFF) guard, MSP430 0(Rn)->@Rn and constant-generator choice for
 65535 / 255, PIC omitted destination, OPTION/TRIS, BANKSEL, AVR CBR, automatic PCLATH fix-up); MSP430 full
 source x destination cross product (every mode x register appears against a register operand, two-extension-word
-combinations only for MOV and CMP.B); MSP430X, other AVR devices, Z80 undocumented, Z180/Z380.
+combinations only for MOV and CMP.B); MSP430X, other AVR devices, Z80 undocumented, Z180/Z380; MELPS740's own
+instructions (bit operations, JMP ($zz), BBC/BBS after CLI/SEI).  Adjacency: contexts longer than one
+statement, and pairs of different FORMS of the same two mnemonics, are not enumerated.
 
-Findings on the pinned tree (known_findings/C14.json; the diffs of proposed_fixes/C14-*.diff are applied to /repo by
-now, so the entries are "fixed" and suppress nothing):
+Findings (known_findings/C14.json).  "fixed" (diffs applied to /repo, the entries suppress nothing):
   4004 ISZ at words 254/255 of a page checked against page of pc+1 (legal target rejected, unreachable one encoded);
   65SC02 / W65C02S JMP ($xxFF) rejected; 6800 JMP/JSR and MSP430 (every format) emit a truncated instruction next to
   the range error.
+"known" (reproduced by hand on the unchanged tree, diff + note in proposed_fixes/, ctest 201/201 with all three
+applied, `./check C14` on that copy: no finding left; each entry must flip to "fixed" when its diff is applied):
+  C14-6502-forced-zp-promotion   `jmp <$12` -> 4C 12, `lda <$12,y` -> B9 00: DecodeNorm appends the high byte through
+      the unrelated global AdrCnt (codevars.c) instead of AdrResult.AdrCnt: length stays 2, the first use zeroes the
+      low byte, every further use writes one byte further behind the 2-byte stack array (100 statements: SIGSEGV).
+  C14-melps740-insnop-*          MELPS740 `adc $12` / `clc` -> EA 12 instead of EA 18: InsNOP() memmove()s the wrong
+      way (found by the adjacency dimension; 6 entries: SEC/CLC/CLD after ADC/SBC).
+  C14-avr-*-port-aliased         AVR SBI/CBI/SBIC/SBIS: address masked with 0x1ff before the 0..31 range check
+      (`sbi 0x205,1` -> 9A29 = port 5; probes 512, 517, 1024, 1029 on the ATMEGA128 of the quick tier).
+  The match keys use descriptors computed by key_of(): `forced` (first character of a `<`/`>` operand), `dev` (shape
+  of the unit mismatch: "len2/3,opcode-ok", "unit1-differs"), `prev` (previous mnemonic of a pair), `op1_low9_lt32`.
 
-Mutations of the real code tried (scratch copy with the proposed fixes, `VERIF_REPO=... ./check C14`), all of them
-compile and pass the 201 ctest tests, all were reported as VIOLATION:
+Mutations of the real code tried (scratch copy, `VERIF_REPO=... ./check C14 --tier quick`), all of them compile and pass
+the 201 ctest tests, all were reported as VIOLATION:
   code4004.c DecodeImm4 UInt4 -> UInt8 (BBL/LDM 16 accepted);  code65.c branch limit 127 -> 128;
-  code16c8x.c bit number UInt3 -> UInt4;  code4004.c JCN page rule pc+2 -> pc+1;  code85.c LXI Int16 -> Int32.
+  code16c8x.c bit number UInt3 -> UInt4;  code4004.c JCN page rule pc+2 -> pc+1;  code85.c LXI Int16 -> Int32;
+  code65.c DecodeFixed: the 740-only "NOP before SEC/CLC/CLD after ADC/SBC" moved out of the `MomCPU == CPUM740`
+      guard (inter-instruction state; MISSED before the adjacency dimension existed: ~1000 accepted statements per
+      source never had the adjacency) -> 12 violations: 6502 and W65C02S, CLC / SEC / CLD on the line directly after
+      ADC / SBC assemble to EA 00 instead of 18 / 38 / D8 (84 s).
 Binding of (V): truncating the recorded units of a JMP or flipping opcode bit 0 of an MVI event makes Isa_Trace reject.
 """
 import os
@@ -117,6 +162,8 @@ def judge(rep, cfg, cpu, case, src, line, rc, em, errs, sig=None, timeout=False,
     exp = case["exp"]
     stmt = isa.stmt_text(case).strip()
     at = (" at %d" % case["pc"]) if case["pc"] >= 0 else ""
+    if case.get("prev"):
+        at += " on the line directly after a %s statement" % case["prev"]
     if timeout or sig is not None:
         rep.violation("%s %s: assembler crashed/hung on '%s'" % (cfg.name, cpu, stmt), case=case,
                       files={"a.asm": src}, key=key_of(cfg, cpu, case, "crash"))
